@@ -41,8 +41,8 @@ META = {
     'watchdog_s': {'quick': 900, 'thorough': 4 * 3600},
 }
 CASES_INPROC = {'quick': 600, 'thorough': 40000}
-CASES_CHILD = {'quick': 48, 'thorough': 1600}
-SECONDS = {'quick': 50, 'thorough': 1200}
+CASES_CHILD = {'quick': 32, 'thorough': 1600}
+SECONDS = {'quick': 50, 'thorough': 480}
 HASHSEEDS = ['0', '1', '2', '3', 'random']
 
 
